@@ -513,6 +513,19 @@ pub fn explore(plan: &Plan, sum: &mut Summary, only: Option<&Damage>) -> Vec<Hit
                     };
                     facts.insert("flipped_region".into(), region.into());
                 }
+                if let (Damage::Truncate { len, .. }, Role::Wal) = (&d, role_of(&name)) {
+                    // where the segment was cut: inside the 4-byte magic, exactly between two frames, or inside a frame
+                    let orig = img.names.get(&name).and_then(|i| img.inodes.get(i)).cloned().unwrap_or_default();
+                    let frames = wal_structure(&orig);
+                    let at = if *len < 4 {
+                        "inside_header"
+                    } else if *len == 4 || frames.iter().any(|(s0, l0)| *s0 + *l0 == *len) {
+                        "between_frames"
+                    } else {
+                        "inside_frame"
+                    };
+                    facts.insert("truncated_at".into(), at.into());
+                }
                 if let (Damage::Flip { offset, .. }, Role::Man) = (&d, role_of(&name)) {
                     // which MANIFEST field the flipped byte belongs to (by position in the JSON text)
                     let orig = img.names.get(&name).and_then(|i| img.inodes.get(i)).cloned().unwrap_or_default();
